@@ -156,7 +156,6 @@ def excuses_scoped(norm, src):
     has_ns = norm.lang['ns'] is not None
     typed_langs = norm.wv or norm.syncml or norm.lang['id'] in (1801, 2401, 2402)
     stack = []
-    unknown_at = None      # depth of the outermost unknown (literal) element we are inside
     embedded_at = None     # depth of an embedded DevInf / DM tree document (elements of another language)
     for e in src:
         if e[0] == 'S':
@@ -165,13 +164,6 @@ def excuses_scoped(norm, src):
             stack.append(local(e[1]))
             if norm.syncml and embedded_at is None and stack[-1] in (b'DevInf', b'MgmtTree'):
                 embedded_at = len(stack)
-            if has_ns and embedded_at is None:
-                # a known element below a literal element loses its xmlns declaration (code page)
-                if unknown_at is not None:
-                    add('[unknown-element-in-namespaced-language]', stack[-1])
-                elif stack[-1] not in names:
-                    unknown_at = len(stack)
-                    add('[unknown-element-in-namespaced-language]', stack[-1])
             for an, av in e[2]:
                 if local(an) in norm.dt_attrs and parse_dt(av) is None:
                     add('[invalid-datetime-attribute]', stack[-1])
@@ -184,8 +176,6 @@ def excuses_scoped(norm, src):
                         except Exception:
                             add('[invalid-base64-in-binary-element]', stack[-1])
         elif e[0] == 'E':
-            if unknown_at is not None and len(stack) == unknown_at:
-                unknown_at = None
             if embedded_at is not None and len(stack) == embedded_at:
                 embedded_at = None
             if stack:
@@ -268,6 +258,8 @@ def compare_at(norm, src, dst, keep_ws):
             for (n1, v1), (n2, v2) in zip(ax, ay):
                 if local(n1) != local(n2) or not norm.attr_equiv(n1, v1, v2):
                     tag = ' [invalid-datetime-attribute]' if (local(n1) in norm.dt_attrs and parse_dt(v1) is None) else ''
+                    if norm.lang['id'] == 1901 and local(n1) == b'VALUE' and re.search(rb'\s', v1):
+                        tag = ' [b64-whitespace]'
                     return f'attribute {n1}={v1} vs {n2}={v2}' + tag, local(x[1])
             stack.append(x[1])
         elif x[0] == 'E':
@@ -282,6 +274,8 @@ def compare_at(norm, src, dst, keep_ws):
                         b64_lenient(x[1])
                     except Exception:
                         tag = ' [invalid-base64-in-binary-element]'
+                if norm.lang['id'] == 1801 and le == b'ds:KeyValue' and re.search(rb'\s', x[1].strip(WS)):
+                    tag = ' [b64-whitespace]'
                 if norm.syncml and le != b'Type' and x[1].strip(WS).lower() in (b'application/vnd.syncml-devinf+xml', b'application/vnd.syncml.dmtnds+xml'):
                     tag = ' [syncml-mime-rewrite-outside-type]'
                 if norm.wv and len(x) > 2 and x[2]:
